@@ -5,6 +5,7 @@ import (
 	"go/ast"
 	"go/token"
 	"go/types"
+	"golang.org/x/tools/go/packages"
 	"sort"
 	"strings"
 
@@ -227,11 +228,29 @@ func ruleChangeKindsConsumed(c *core.Ctx) {
 			return true
 		})
 	}
+	var casesIn func(d *ast.FuncDecl, pp *packages.Package, res map[string]bool, seen map[*ast.FuncDecl]bool, depth int)
 	casesOf := func(pkgRel, fn string) map[string]bool {
 		_, d, pp := c.Func(pkgRel, fn)
-		res := map[string]bool{}
 		if d == nil {
 			return nil
+		}
+		res := map[string]bool{}
+		casesIn(d, pp, res, map[*ast.FuncDecl]bool{}, 0)
+		return res
+	}
+	// the kinds a function distinguishes, itself or in the helpers of its package it hands the work to
+	casesIn = func(d *ast.FuncDecl, pp *packages.Package, res map[string]bool, seen map[*ast.FuncDecl]bool, depth int) {
+		if seen[d] || depth > 2 {
+			return
+		}
+		seen[d] = true
+		for _, cs := range c.Calls(d) {
+			if cs.Callee == nil || cs.Callee.Pkg() != pp.Types {
+				continue
+			}
+			if hd := c.Decl(cs.Callee.Origin()); hd != nil && hd.Body != nil {
+				casesIn(hd, pp, res, seen, depth+1)
+			}
 		}
 		for _, ts := range findTypeSwitches(pp.TypesInfo, d.Body, nil) {
 			for _, cs := range ts.cases {
@@ -253,7 +272,6 @@ func ruleChangeKindsConsumed(c *core.Ctx) {
 			}
 			return true
 		})
-		return res
 	}
 	conv := casesOf("internal/cpp/binary", "writeTypeConversion")
 	isErr := casesOf("pkg/dsl", "typeChangeIsError")
